@@ -2,7 +2,7 @@
    MapProofs and WorldProofs; the Prop_Cxx.v files restate them and close them by [exact]. *)
 From stdpp Require Import gmap list.
 From Coq Require Import NArith Lia.
-From G Require Import Arith Monad Types Inv Raw RawProofs Map MapProofs IterProofs CloneProofs Cost EntryProofs EntryCost Ledger Fill WorldProofs.
+From G Require Import Arith Monad Types Inv Raw RawProofs Map MapProofs IterProofs CloneProofs Cost EntryProofs EntryCost Ledger SetProofs Fill WorldProofs.
 Local Open Scope N_scope.
 
 (* every world reachable by a history of (so far: core) operations, from the empty world *)
@@ -409,6 +409,7 @@ Definition op_writes (o : op) : list N :=
   | OExtend s _ _ | OFromIter s _ _ _ | ODrop s | OEntry s _ _ _ | ORawEntry s _ _ _ | ORawGet s _ _ => [s]
   | OClone _ d | OCloneFrom d _ => [d]
   | OEq a _ => [a]
+  | OSetAlg _ a _ | OSetPred _ a _ => [a]
   end.
 
 Lemma T_C11_independent c w t o w' i :
@@ -440,6 +441,8 @@ Proof.
   - destruct Hs as (m & _ & [[_ [m' ->]]|Hs]); [apply lookup_insert_ne; congruence|].
     destruct (ref_chain _ _ _ _ _); [contradiction| |]; destruct Hs as [_ ->]; apply lookup_insert_ne; congruence.
   - destruct Hs as (m & _ & _ & ->). reflexivity.
+  - destruct Hs as (ma & mb & _ & _ & -> & _). reflexivity.
+  - destruct Hs as (ma & mb & _ & _ & -> & _). reflexivity.
 Qed.
 
 (* ---------------------------------------------------------------- C14 *)
@@ -661,6 +664,55 @@ Proof. intros Hl E. pose proof (map_drop_ledger s Hl) as H. unfold wpp in H. rew
 Lemma T_C06_lite_reachable R Esz s : Inv R Esz (s_rt s) -> lite s.
 Proof. apply Inv_lite. Qed.
 
+(* ---------------------------------------------------------------- C13 *)
+
+(* A HashSet is the map with () values: insert / replace / remove / take / get / get_or_insert* /
+   contains / retain / drain / drain_filter / extend / clear are the map and entry operations
+   of T_C01 / T_C12 on it, and refine the same reference (its key set is the reference set). *)
+Lemma T_C13_element_ops c w t o w' :
+  0 < cR c -> WInv c w -> core_op (t_op t) -> step c w t = Ok o w' ->
+  WInv c w' /\ spec_rel (wabs w) (t_op t) o (wabs w').
+Proof. apply T_step_ok. Qed.
+
+(* difference / symmetric_difference / intersection / union (kind 0-3) and the operator forms
+   - ^ & | (kind 4-7), for operands in any resize phase: what is yielded (shown sorted, i.e. as
+   a permutation of it) holds each key of the mathematical result exactly once, and every
+   yielded object is an element of one of the operands; the operands are unchanged *)
+Lemma T_C13_algebra c w t kind a b o w' :
+  0 < cR c -> WInv c w -> t_op t = OSetAlg kind a b -> step c w t = Ok o w' ->
+  exists (ma mb : gmap N elem) l, wabs w !! a = Some ma /\ wabs w !! b = Some mb /\ wabs w' = wabs w /\
+    o = OutL (sorted3 l) /\ sorted3 l ≡ₚ map elem3' l /\
+    NoDup (map ek l) /\
+    (forall e, e ∈ l -> ma !! ek e = Some e \/ mb !! ek e = Some e) /\
+    (forall k, k ∈ map ek l <->
+       alg_math (if kind <? 4 then kind else kind - 4) (is_Some (ma !! k)) (is_Some (mb !! k))).
+Proof.
+  intros HR HW Eop Hrun. assert (Hc : core_op (t_op t)) by (rewrite Eop; exact I).
+  destruct (T_step_ok c w t o w' HR HW Hc Hrun) as [_ Hs]. rewrite Eop in Hs. cbn [spec_rel] in Hs.
+  destruct Hs as (ma & mb & Ha & Hb & Hw & l & Ho & (H1 & H2 & H3)).
+  exists ma, mb, l. split; [exact Ha|]. split; [exact Hb|]. split; [exact Hw|]. split; [exact Ho|].
+  split; [apply sorted3_perm|]. auto.
+Qed.
+
+(* is_disjoint / is_subset / is_superset / == decide the mathematical relations *)
+Lemma T_C13_predicates c w t kind a b o w' :
+  0 < cR c -> WInv c w -> t_op t = OSetPred kind a b -> step c w t = Ok o w' ->
+  exists (ma mb : gmap N elem) bb, wabs w !! a = Some ma /\ wabs w !! b = Some mb /\ wabs w' = wabs w /\
+    o = OutB bb /\ (bb = true <-> pred_math kind ma mb).
+Proof.
+  intros HR HW Eop Hrun. assert (Hc : core_op (t_op t)) by (rewrite Eop; exact I).
+  destruct (T_step_ok c w t o w' HR HW Hc Hrun) as [_ Hs]. rewrite Eop in Hs. cbn [spec_rel] in Hs.
+  destruct Hs as (ma & mb & Ha & Hb & Hw & bb & Ho & Hbb). exists ma, mb, bb. auto.
+Qed.
+
+(* iter() of a set in any resize phase: every element, each exactly once, exact length *)
+Lemma T_C13_iter c r :
+  Inv (cR c) (cesz c) r ->
+  NoDup (map ek (iter_elems r)) /\
+  (forall e, e ∈ iter_elems r <-> rt_abs r !! ek e = Some e) /\
+  N.of_nat (length (iter_elems r)) = rt_len r.
+Proof. apply iter_elems_spec. Qed.
+
 (* ---------------------------------------------------------------- C17 *)
 
 (* the model has one behaviour for both build profiles: nothing in it reads the profile flag *)
@@ -733,6 +785,8 @@ Proof.
   - apply chain_rel_panic in Hs. tauto.
   - apply chain_rel_panic in Hs. tauto.
   - destruct Hs as (m & _ & H & _). discriminate.
+  - destruct Hs as (ma & mb & _ & _ & _ & l & H & _). discriminate.
+  - destruct Hs as (ma & mb & _ & _ & _ & bb & H & _). discriminate.
 Qed.
 
 Lemma T_C17_no_assertion_fires c w t p w' :
